@@ -31,8 +31,9 @@ def table_83():
         th = [t.split(".")[-1] for t in cov.get("theorems", [])] or P.get("required_theorems", [])
         protos = collections.Counter()
         for smp in cov.get("samples", []):
-            protos[smp["request"].split(" ")[0]] += 1
-        r2 = "%s (%s)" % (cov.get("ring2_requests", "?"), cov.get("distinct_nontrivial", "?"))
+            if "request" in smp:
+                protos[smp["request"].split(" ")[0]] += 1
+        r2 = "%s (%s)%s" % (cov.get("ring2_requests", "?"), cov.get("distinct_nontrivial", "?"), ("; protocols sampled: " + ", ".join("`%s`" % k for k in sorted(protos))) if protos else "")
         runners = [" ".join(h) for h in P.get("hx", [])] + ["cli." + f.__name__ for f in P.get("py", [])]
         named = sorted({k["signature"] for k in kf if k["property"] == pid})
         kn = []
@@ -42,7 +43,7 @@ def table_83():
             kn.append("%d generated (closed sets)" % per_prop[pid])
         out.append("| %s | %s | %s | %s | %s | %s |" % (
             pid, P["level"], ", ".join("`%s`" % t for t in th), r2,
-            "%s oracle failures, %s known signatures, %s new; evaluations %s; runners: %s" % (cov.get("ring3_violations_total", "-"), cov.get("ring3_known_signatures", "-"), cov.get("ring3_new", "-"), cov.get("evaluations", "-"), ", ".join("`%s`" % r for r in runners)),
+            "%s oracle failures, %s known signatures, %s new; evaluations %s; runners: %s" % (cov.get("ring3_violations_total", "-"), len(cov.get("ring3_known_signatures", {}) or {}), cov.get("ring3_new", "-"), cov.get("evaluations", "-"), ", ".join("`%s`" % r for r in runners)),
             "<br>".join(kn) or "-"))
     return "\n".join(out)
 
